@@ -119,7 +119,8 @@ class Model:
         if k == 'g':
             v = self.atom_value(g[1])
             self.tok('g%d=%d/%s' % (g[1], v, self.evdesc(ev)))
-            self.callback(ms)
+            if ev != 'none':
+                self.callback(ms)      # guards of completion rows are no script positions (see rt.hpp)
             return bool(v)
         if k == 'not':
             return not self.eval_guard(ms, g[1], ev)
